@@ -318,7 +318,7 @@ func (ex *Exec) sliceElems(st *State, s Val) ([]Val, bool) {
 	n := ln.IntVal().Int64()
 	var out []Val
 	for i := int64(0); i < n; i++ {
-		out = append(out, ex.load(st, &Loc{Kind: locElem, Base: s.L[0], Idx: Add(s.L[1], Int(i)), Obj: sl.Elem(), T: sl.Elem()}))
+		out = append(out, ex.load(st, &Loc{Kind: locElem, Base: s.L[0], Off: s.L[1], Idx: Int(i), Obj: sl.Elem(), T: sl.Elem()}))
 	}
 	return out, true
 }
